@@ -109,7 +109,7 @@ impl SubCheck for Link {
         "exactly_once_in_order"
     }
     fn cases(&self, tier: Tier) -> u32 {
-        tier.pick(1200, 20000)
+        tier.pick(2000, 24000)
     }
     fn strategy(&self, tier: Tier) -> BoxedStrategy<OrlCase> {
         let max_bound = tier.pick(5usize, 6usize);
